@@ -14,6 +14,13 @@
 (*   kind "bgp":  o.bgp[node][p] = string returned by the BGP controller    *)
 (*   optional o.e2e / o.routes: what the whole speaker controller ended up  *)
 (*        announcing (sampled inputs)                                       *)
+(*   kind "seq":  o.in.views = views evaluated one after the other on       *)
+(*        long-lived controllers; o.seq[j] = what the whole controllers of  *)
+(*        all nodes announce after view j (l2 / bgp per service, routes per *)
+(*        node).  Every evaluation is judged on the CURRENT view.           *)
+(*   kind "cfg":  the configuration went through config.For; o.in.view is   *)
+(*        the view with the advertisements resolved by the specification;   *)
+(*        o.cl2 / o.cbgp the decisions on the parsed pool                   *)
 (***************************************************************************)
 EXTENDS Election, Json
 
@@ -133,6 +140,52 @@ E2EL2OK(o) ==
   /\ a \subseteq E
   /\ (IF E = {} THEN a = {} ELSE Cardinality(a) = 1)
 
+
+----------------------------------------------------------------------------
+(* sequences on long-lived controllers *)
+SeqSvcs == {"svcA", "svcB"}
+SeqAddr(o, sv) == IF sv = "svcA" THEN o.in.pairs[1][1] ELSE o.in.pairs[Len(o.in.pairs)][2]
+SeqL2(o, j, sv) == ERange(o.seq[j].l2[sv])
+
+(* indices of the views after which the predicate fails *)
+SeqBadExactlyOne(o) ==
+  {j \in DOMAIN o.seq : LET E == L2Eligible(NV(o.in.views[j])) IN
+     \E sv \in SeqSvcs : ~(IF E = {} THEN SeqL2(o, j, sv) = {} ELSE Cardinality(SeqL2(o, j, sv)) = 1)}
+SeqBadEligible(o) ==
+  {j \in DOMAIN o.seq : \E sv \in SeqSvcs : ~(SeqL2(o, j, sv) \subseteq L2Eligible(NV(o.in.views[j])))}
+SeqBadByDuels(o) ==
+  {j \in DOMAIN o.seq : LET E == L2Eligible(NV(o.in.views[j])) IN
+     /\ Cardinality(E) >= 2
+     /\ \E sv \in SeqSvcs : DuelsKnown(SeqAddr(o, sv), E) /\ SeqL2(o, j, sv) # DuelMin(SeqAddr(o, sv), E)}
+SeqBadClause(o, clause(_, _, _, _)) ==
+  {j \in DOMAIN o.seq : j > 1 /\ \E sv \in SeqSvcs :
+     ~clause(L2Eligible(NV(o.in.views[j - 1])), L2Eligible(NV(o.in.views[j])), SeqL2(o, j - 1, sv), SeqL2(o, j, sv))}
+SeqBadBgp(o) ==
+  {j \in DOMAIN o.seq : LET V == NV(o.in.views[j]) IN
+     \E n \in NodesOf(V) : \E sv \in SeqSvcs : (n \in ERange(o.seq[j].bgp[sv])) # BGPEligible(V, n)}
+SeqBadRoutes(o) ==
+  {j \in DOMAIN o.seq : LET V == NV(o.in.views[j]) IN
+     \E n \in NodesOf(V) : (o.seq[j].routes[n] > 0) # BGPEligible(V, n)}
+
+SeqFails(o) ==
+  (IF SeqBadExactlyOne(o) = {} THEN {} ELSE {"C04.SeqExactlyOne"}) \cup
+  (IF SeqBadEligible(o) = {} THEN {} ELSE {"C04.SeqEligible"}) \cup
+  (IF SeqBadByDuels(o) = {} THEN {} ELSE {"C12.SeqByDuels"}) \cup
+  (IF SeqBadClause(o, ClRemove) = {} THEN {} ELSE {"C12.SeqRemove"}) \cup
+  (IF SeqBadClause(o, ClAdd) = {} THEN {} ELSE {"C12.SeqAdd"}) \cup
+  (IF SeqBadClause(o, ClNoSwap) = {} THEN {} ELSE {"C12.SeqNoSwap"}) \cup
+  (IF SeqBadBgp(o) = {} THEN {} ELSE {"C10.SeqIff"}) \cup
+  (IF SeqBadRoutes(o) = {} THEN {} ELSE {"C10.SeqRoutes"})
+
+(* configuration parsed by config.For *)
+CfgFails(o) ==
+  LET V == NV(o.in.view)  E == L2Eligible(V)  a == ERange(o.cl2) IN
+  (IF \A n \in NodesOf(V) : (o.cbgp[n] = "") = BGPEligible(V, n) THEN {} ELSE {"C10.CfgIff"}) \cup
+  (IF E2EBgpBad(o) = {} THEN {} ELSE {"C10.CfgRoutes"}) \cup
+  (IF (IF E = {} THEN a = {} ELSE Cardinality(a) = 1) THEN {} ELSE {"C04.CfgExactlyOne"}) \cup
+  (IF a \subseteq E THEN {} ELSE {"C04.CfgEligible"}) \cup
+  (IF E2EL2OK(o) THEN {} ELSE {"C04.CfgController"})
+
 ----------------------------------------------------------------------------
 Fails(k) ==
   LET o == Trace[k] IN
@@ -141,6 +194,8 @@ Fails(k) ==
   (IF o.in.kind = "pair" /\ Has(o, "decb")
    THEN ViewFails(NV(o.in.base), o.in.pairs, o.decb) \cup ViewFails(NV(o.in.pert), o.in.pairs, o.decp) \cup PairFails(o)
    ELSE {}) \cup
+  (IF o.in.kind = "seq" /\ Has(o, "seq") THEN SeqFails(o) ELSE {}) \cup
+  (IF o.in.kind = "cfg" /\ Has(o, "cbgp") THEN CfgFails(o) ELSE {}) \cup
   (IF o.in.kind = "bgp" /\ Has(o, "bgp") THEN (IF BgpBad(o) = {} THEN {} ELSE {"C10.Iff"}) ELSE {}) \cup
   (IF o.in.kind = "bgp" /\ Has(o, "e2e") THEN (IF E2EBgpBad(o) = {} THEN {} ELSE {"C10.Routes"}) ELSE {}) \cup
   (IF o.in.kind \in {"l2", "duel"} /\ Has(o, "e2e") THEN (IF E2EL2OK(o) THEN {} ELSE {"C04.Controller"}) ELSE {})
@@ -158,6 +213,13 @@ Info(k) ==
         remove |-> PairBad(o, ClRemove), add |-> PairBad(o, ClAdd), noswap |-> PairBad(o, ClNoSwap)]
   ELSE IF o.in.kind = "bgp" /\ Has(o, "bgp")
   THEN [bgp |-> BgpBad(o)]
+  ELSE IF o.in.kind = "seq" /\ Has(o, "seq")
+  THEN [steps |-> [exactlyone |-> SeqBadExactlyOne(o), eligible |-> SeqBadEligible(o), byduels |-> SeqBadByDuels(o),
+                   remove |-> SeqBadClause(o, ClRemove), add |-> SeqBadClause(o, ClAdd), noswap |-> SeqBadClause(o, ClNoSwap),
+                   iff |-> SeqBadBgp(o), routes |-> SeqBadRoutes(o)]]
+  ELSE IF o.in.kind = "cfg" /\ Has(o, "cbgp")
+  THEN [elig |-> L2Eligible(NV(o.in.view)),
+        bgpwant |-> {n \in NodesOf(NV(o.in.view)) : BGPEligible(NV(o.in.view), n)}]
   ELSE [none |-> TRUE]
 
 Init == i = 1 /\ tab = DuelTabNow
